@@ -622,14 +622,14 @@ def run(ck: common.Check):
     cases = list(corpus())
     ck.extra["corpus_cases"] = len(cases)
     cases += exhaustive_cases(ck.rng, thorough)
-    nrand, ncoll = (8000, 300) if thorough else (500, 40)
+    nrand, ncoll = (8000, 300) if thorough else (420, 36)
     for _ in range(nrand):
         cases.append(random_case(ck.rng))
     for _ in range(ncoll):
         cases.append(random_case(ck.rng, collide=True))
     ncsv = 0
     for i, c in enumerate(cases):
-        if "csv" not in c and ck.rng.random() < (0.12 if thorough else 0.2):
+        if "csv" not in c and ck.rng.random() < (0.12 if thorough else 0.16):
             c["csv"] = True
             c["via"] = ck.rng.choice(["api", "api", "cli"])
             c["out_arg"] = ck.rng.choice(["out.csv", "out", "tables.tsv"])
@@ -665,10 +665,20 @@ def run(ck: common.Check):
             if "err" in mo:
                 ck.corr_broken("C17:driver", small, o.get("exc"), mo)
             else:
+                # the harness' collision classification must be the negation of the theorems' NoCollision
+                py_coll = [has_collision(c, "node"), has_collision(c, "edge")]
+                if mo.get("collision") != py_coll:
+                    ck.corr_broken("C17:noCollisionB", small, py_coll, mo.get("collision"))
                 d = compare_model(o, mo)
                 if d is not None:
                     ck.corr_broken("C17:geffToDataframes", small,
                                    {k: o.get(k) for k in ("exc", "msg", "nodes", "edges", "warn")}, {"diff": d, "model": mo})
+    n_skipped = sum(1 for o in obs_all if "unwritable" in o or "unreadable" in o)
+    ck.extra["skipped_unwritable_or_unreadable"] = n_skipped
+    if n_skipped * 20 > len(obs_all):      # generation dominated by stores the writer/reader refuses
+        ck.broken.append({"what": "corr C17:generation", "detail": f"{n_skipped} of {len(obs_all)} generated stores could not be "
+                          "written/read back; first reasons: " + "; ".join(sorted({(o.get('unwritable') or o.get('unreadable'))[:80]
+                          for o in obs_all if 'unwritable' in o or 'unreadable' in o})[:3])})
     # file-level model of geff_to_csv (which files are written / kept) on the observed scenarios
     scen_reqs, scen_obs = [], []
     for c, o in zip(cases, obs_all):
